@@ -520,9 +520,14 @@ class NumpyShim:
     def unwrap(self, a, **k):
         if has_sym(a):
             # contract used: element 0 is unchanged, every element changes by an integer multiple of 2*pi
+            # (a deterministic function of its argument: the same symbols for the same input)
+            import hashlib
             out = [a[0]]
+            key = hashlib.sha1()
+            key.update(str(tz(plain(a[0])).sexpr()).encode())
             for i in range(1, len(a)):
-                kk = ctx.fresh("unwrapk", "int")
+                key.update(str(tz(plain(a[i])).sexpr()).encode())
+                kk = z3.Int("unwrapk_%s_%d" % (key.hexdigest()[:10], i))
                 out.append(a[i] + SR(z3.ToReal(kk)) * (2 * rnp.pi))
             return oarr(out)
         return rnp.unwrap(a, **k)
